@@ -788,7 +788,10 @@ def e_accuracy_on_data(c):
     I = c.idx(6)
     if c.rng.random() < 0.3:
         I = c.own(I.tolist())
-    y = c.own(c.rng.standard_normal(6) + 2)
+    y = c.rng.standard_normal(6) + 2
+    if y[0] > 3.0:
+        y[1] = np.nan       # a missing reference value (about one call in six; decided by the values, no extra draw)
+    y = c.own(y)
     kw = {} if c.rng.random() < 0.6 else {'e_trunc': 1e-3}
     if c.rng.random() < 0.2:
         return Call('accuracy_on_data', teneva.accuracy_on_data, [c.tt(), None, None])
